@@ -30,6 +30,44 @@ CHECKS = {
              'collinear-only boundary overlap is documented as unspecified; 1e-10 rounding inert on the dyadic grids used.',
         technique='Lean 4 proof (segment geometry, sweep invariant, relation laws) + differential correspondence + exact set-truth oracle',
         design='§6 C02'),
+    'C04': dict(
+        text='Lean 4 theorems over a model of the member loops that is parametric in the member-level relations: for all member lists and '
+             'all relations, contains_coordinate / intersects_shape / contains_shape of a multi-shape (as receiver or argument, against a '
+             'single or multi counterpart) equal the any / any-any / all-any / all forms of the statement and are invariant under member '
+             'permutation; bounds are the smallest box enclosing the member boxes with every side attained; split returns the members in '
+             'order with the parent dt and property dictionaries that are fresh objects with the parent content (heap model; isolation '
+             'under set_property proved).',
+        note='Trusted: Lean kernel + Mathlib. The member-level truth table is measured on the implementation own single-shape methods '
+             '(whose correctness is C01/C02); dict.copy/deepcopy modelled as allocation, identity observed with id(). Tied to the code by '
+             'correspondence over every 0/1 relation mask of 1-4 members, all member orders, every shape kind as counterpart, exact '
+             'bounds and split scenarios.',
+        technique='Lean 4 proof (loops = any/all spec, permutation invariance, heap-model split) + exhaustive/random differential correspondence against real multi-shapes',
+        design='§6 C04'),
+    'C05': dict(
+        text='Lean 4 theorems for every assignment of time bounds and every spatial relation: intersects / contains / `in` equal temporal && '
+             'spatial when both shapes are time-bounded and the spatial test alone otherwise; the temporal conjunct is non-empty '
+             'intersection resp. inclusion of the C06 instant sets; contains_time / intersects_time delegate (no dt gives False); a '
+             'datetime passed to the constructor or set_dt yields exactly the zero-length interval at its instant, naive means UTC, '
+             'offsets are irrelevant, constructor and set_dt agree, neither raises.',
+        note='Trusted: Lean kernel + Mathlib. CPython datetime semantics enter through the abstraction datetime -> (wall microseconds, offset). '
+             'The spatial sub-answer is measured on dt-stripped copies (its time-freeness is C02). Correspondence covers all 100 ordered '
+             'kind pairs, every spatial class, every order type of two intervals/instants, all construction routes and datetime '
+             'representations, in a process whose local zone is not UTC.',
+        technique='Lean 4 proof (gates = conjunction, linked to the C06 set semantics) + exhaustive/random differential correspondence + 6-way indistinguishability observation',
+        design='§6 C05'),
+    'C10': dict(
+        text='Lean 4 theorems about an executable model of the monotone chain over exact rationals: for every finite point list the result is '
+             'closed, consists of input points, contains all inputs, repeats no vertex, depends only on the set of inputs (permutation / '
+             'multiplicity invariance, sorted(set(..)) canonical), handles 0/1/2/collinear inputs exactly, turns strictly left at every '
+             'vertex including both junctions, passes the code own orientation test (so the GeoPolygon constructor keeps it), and is THE '
+             'hull: uniqueness is proved (also modulo the start vertex). The wrappers vertex collection is modelled and proved '
+             'order-independent and member-containing.',
+        note='Trusted: Lean kernel + Mathlib + the hand-written model, tied to _geometry.py, multistructures.py, collections.py and '
+             'GeoPolygon.__init__ by correspondence on dyadic inputs where float and rational arithmetic agree; CPython set/sorted '
+             'semantics trusted (set iteration order proved irrelevant). Outside the claim: float rounding on near-collinear non-dyadic '
+             'inputs, Z-only differences, wrapper inputs spanning more than 180 degrees of longitude, generated outlines of curved members.',
+        technique='Lean 4 proof (stack invariant, reflection, junction lemmas, shoelace telescoping, gift-wrapping uniqueness) + exhaustive/random differential correspondence through convex_hull and all five wrappers + independent exact oracle',
+        design='§6 C10'),
     'C06': dict(
         text='Lean 4 theorems: every TimeInterval operator of the model equals the dense-time set model '
              '[start,end) / {start} for all intervals and instants (membership, subset, superset, disjoint, '
